@@ -898,7 +898,86 @@ def rule_component_conditions(ctx):
     C12.rule_R12(R.Retag(ctx, "C12."))
 
 
+def rule_key_components_reject(ctx):
+    """R1: the index may only hide entries the scan would reject: every component of the observation that the TCP index key is built from
+    is a component whose distance function can answer `None` (a mismatch there rejects the entry).  A component that only costs points
+    (olen, mss, wscale ...) in the key hides entries the exhaustive scan accepts"""
+    P = ctx.program
+    g = [b for b in P.bodies.values() if b.crate == "huginn_net_db" and b.name == "generate_index_key" and "TcpObservation" in (b.impl_self or "")]
+    cd = [b for b in P.bodies.values() if b.crate == "huginn_net_db" and b.name == "calculate_distance" and "tcp::Signature" in (b.impl_self or "")]
+    if len(g) != 1 or len(cd) != 1:
+        ctx.cannot("R1", "tcp:key-components", "generate_index_key / calculate_distance of the TCP matcher not found (%d / %d)" % (len(g), len(cd)))
+        return
+    g, cd = g[0], cd[0]
+    S = T.Slicer(g, P)
+    comps = {}
+    for i, j, st in g.iter_stmts():
+        r = st.get("r") or {}
+        if r.get("k") == "agg" and r.get("path", "").endswith("TcpIndexKey"):
+            for f, o in zip(r.get("fields") or [], r["ops"]):
+                t = S.operand(o, i, j)
+                for x in T.walk(t):
+                    if x[0] == "field" and any(y[0] == "param" and y[1] == 0 for y in T.walk(x[1])) and not any(y[0] == "field" for y in T.walk(x[1])):
+                        comps.setdefault(x[2], f)
+    SD = T.Slicer(cd, P)
+    cands = {}
+    for blk, t in cd.calls():
+        n = callee_of(t)
+        if "distance_" not in n.rsplit("::", 1)[-1]:
+            continue
+        cb = P.bodies.get(n)
+        if cb is None:
+            continue
+        a = Q.call_args(cd, SD, blk, t)
+        direct = set()
+        for arg in a:
+            for x in T.walk(arg):
+                if x[0] == "field" and any(y[0] == "param" and y[2] == "observed" for y in T.walk(x[1])):
+                    direct.add(x[2])
+        inner = set()
+        if not direct:
+            CS = T.Slicer(cb, P)
+            for bb, tt in list(cb.calls()):
+                for arg in Q.call_args(cb, CS, bb, tt):
+                    for x in T.walk(arg):
+                        if x[0] == "field" and any(y[0] == "param" and y[1] == 0 for y in T.walk(x[1])):
+                            inner.add(x[2])
+            for i, j, st in cb.iter_stmts():
+                if st["k"] == "assign":
+                    try:
+                        tt = CS.rvalue(st["r"], i, j)
+                    except Exception:
+                        continue
+                    for x in T.walk(tt):
+                        if x[0] == "field" and any(y[0] == "param" and y[1] == 0 for y in T.walk(x[1])):
+                            inner.add(x[2])
+        rejects = any(T.strip(term)[0] == "agg" and T.strip(term)[3] == "None" for (_rb, _j, term, _c) in TB.return_sites(cb, P, True))
+        for c in (direct or inner):
+            cands.setdefault(c, []).append((n.rsplit("::", 1)[-1], rejects))
+    n = 0
+    for c, keyf in sorted(comps.items()):
+        cs = cands.get(c)
+        if not cs:
+            ctx.ok("R1", "tcp:key-component:" + c, "no distance function reads `%s` on its own: not judged" % c)
+            continue
+        n += 1
+        ctx.check(any(r for _, r in cs), "R1", "tcp:key-component:" + c, "`%s` (key field %s) is judged by %s, which can reject" % (c, keyf, [x for x, _ in cs]),
+                  "the TCP index key contains `%s` (field %s), but %s never answers None: an entry that differs there only loses points in the exhaustive scan "
+                  "and is a valid (possibly the best) match, yet the index lookup no longer finds it" % (c, keyf, [x for x, _ in cs]), ctx.loc(g))
+    ctx.floor("R1", "TCP index key components judged", n, 2)
+
+
+def rule_quality_monotone(ctx):
+    """R5: the entry with the least distance is the entry with the best quality only if the score tables are non-increasing and total
+    (shared with C12.R4)"""
+    from ..engine import report as R
+    from . import C12
+    C12.rule_R4(R.Retag(ctx, "C12."))
+
+
 def run(ctx):
+    rule_quality_monotone(ctx)
+    rule_key_components_reject(ctx)
     rule_component_conditions(ctx)
     rule_structural_equality(ctx)
     rule_matchers_forward(ctx)
